@@ -683,6 +683,93 @@ Section SweeperTheorems.
     transitivity ((u m x -! dt *! C -! dt *! C') +! dt *! C +! dt *! C'); [ring|]. rewrite H. ring.
   Qed.
 
+  (* ---------------------------------------------------------------- explicit fixed points (C01) *)
+  (* explicit sweeper: no solver at all, so BOTH directions hold unconditionally (strictly lower-triangular QE) *)
+  Theorem expl_fixed_point_is_collocation QE u f tau :
+    feval_ext -> strictly_lower_triangular QE -> consistent u f ->
+    let r := expl_update kO kadd kmul ksub M dt t0 nodes Q feval QE u f tau in
+    (forall m, 1 <= m <= M -> forall x, fst r m x = u m x) ->
+    collocation1 u f tau.
+  Proof.
+    intros Hext Hstri Hcons r Hfix m Hm x.
+    destruct (expl_sweep_matrix_form QE u f tau) as [_ Hn]. fold r in Hn.
+    destruct (Hn m Hm) as [_ H]. specialize (H x).
+    assert (Hf : forall j, 1 <= j <= M -> snd r j 0 x = f j 0 x).
+    { intros j Hj. destruct (Hn j Hj) as [E _]. rewrite E, (Hcons j Hj). apply Hext. apply Hfix. exact Hj. }
+    rewrite (sumf_ext kO kadd (fun j => QE m j *! snd r j 0 x) (fun j => QE m j *! f j 0 x) 1 (m - 1)) in H
+      by (intros j Hj; rewrite Hf by lia; reflexivity).
+    rewrite <- (sumf_stri QE (fun j => f j 0 x) m Hstri Hm) in H.
+    rewrite L5 in H. rewrite Hfix in H by exact Hm.
+    set (B := sumf (fun j => Q m j *! f j 0 x) 1 M) in *.
+    set (C := sumf (fun j => QE m j *! f j 0 x) 1 M) in *.
+    transitivity ((u m x -! dt *! C) +! dt *! C); [ring|]. rewrite H. ring.
+  Qed.
+
+  Theorem expl_collocation_is_fixed_point QE u f tau :
+    feval_ext -> strictly_lower_triangular QE -> consistent u f -> collocation1 u f tau ->
+    let r := expl_update kO kadd kmul ksub M dt t0 nodes Q feval QE u f tau in
+    forall m, 1 <= m <= M -> forall x, fst r m x = u m x.
+  Proof.
+    intros Hext Hstri Hcons Hcoll r.
+    destruct (expl_sweep_matrix_form QE u f tau) as [_ Hn]. fold r in Hn.
+    assert (Hall : forall n m, m <= n -> 1 <= m <= M -> forall x, fst r m x = u m x).
+    { induction n as [|n IH]; intros m Hmn Hm x; [lia|].
+      destruct (Hn m Hm) as [_ H]. specialize (H x).
+      assert (Hf : forall j, 1 <= j < m -> snd r j 0 x = f j 0 x).
+      { intros j Hj. destruct (Hn j ltac:(lia)) as [E _]. rewrite E, (Hcons j ltac:(lia)). apply Hext.
+        intros z. apply IH; lia. }
+      rewrite (sumf_ext kO kadd (fun j => QE m j *! snd r j 0 x) (fun j => QE m j *! f j 0 x) 1 (m - 1)) in H
+        by (intros j Hj; rewrite Hf by lia; reflexivity).
+      rewrite <- (sumf_stri QE (fun j => f j 0 x) m Hstri Hm) in H.
+      rewrite L5 in H. rewrite (Hcoll m Hm x).
+      set (B := sumf (fun j => Q m j *! f j 0 x) 1 M) in *.
+      set (C := sumf (fun j => QE m j *! f j 0 x) 1 M) in *.
+      transitivity ((fst r m x -! dt *! C) +! dt *! C); [ring|]. rewrite H. ring. }
+    intros m Hm x. apply (Hall m m (le_n m) Hm).
+  Qed.
+
+  (* ---------------------------------------------------------------- multi_implicit fixed points (C01) *)
+  (* any fixed point of the two-stage multi_implicit sweep (lower-triangular Q1, Q2) solves the collocation problem with the
+     FULL right-hand side f_1 + f_2: the splitting changes the iteration, never the answer *)
+  Theorem mi_fixed_point_is_collocation Q1 Q2 u f tau :
+    solver_contract 0 -> solver_contract 1 -> feval_ext -> lower_triangular Q1 -> lower_triangular Q2 -> consistent u f ->
+    let r := mi_update kO kadd kmul ksub M dt t0 nodes Q solve feval Q1 Q2 u f tau in
+    (forall m, 1 <= m <= M -> forall x, fst r m x = u m x) ->
+    collocation2 u f tau.
+  Proof.
+    intros Hc0 Hc1 Hext Ht1 Ht2 Hcons r Hfix m Hm x.
+    destruct (mi_sweep_two_stage_form Q1 Q2 u f tau Hc0 Hc1) as [_ Hn]. fold r in Hn.
+    assert (Hf : forall j p y, 1 <= j <= M -> snd r j p y = f j p y).
+    { intros j p y Hj. destruct (Hn j Hj) as [E _]. rewrite E, (Hcons j Hj). apply Hext. apply Hfix. exact Hj. }
+    destruct (Hn m Hm) as [_ [ustar H]].
+    (* second stage at the fixed point: the intermediate value IS the node value *)
+    assert (Hstar : forall y, ustar y = u m y).
+    { intros y. destruct (H y) as [_ H2].
+      rewrite (sumf_ext kO kadd (fun j => Q2 m j *! snd r j 1 y) (fun j => Q2 m j *! f j 1 y) 1 m) in H2
+        by (intros j Hj; rewrite Hf by lia; reflexivity).
+      rewrite <- (sumf_tri Q2 (fun j => f j 1 y) m Ht2 Hm) in H2. rewrite Hfix in H2 by exact Hm.
+      set (S2 := sumf (fun j => Q2 m j *! f j 1 y) 1 M) in *.
+      transitivity ((ustar y -! dt *! S2) +! dt *! S2); [ring|]. rewrite <- H2. ring. }
+    destruct (H x) as [H1 _].
+    assert (Hfe : feval (tn m) ustar 0 x = f m 0 x).
+    { rewrite (Hcons m Hm). apply Hext. exact Hstar. }
+    rewrite Hfe, Hstar in H1.
+    rewrite (sumf_ext kO kadd (fun j => Q1 m j *! snd r j 0 x) (fun j => Q1 m j *! f j 0 x) 1 (m - 1)) in H1
+      by (intros j Hj; rewrite Hf by lia; reflexivity).
+    rewrite L5 in H1.
+    pose proof (sumf_tri Q1 (fun j => f j 0 x) m Ht1 Hm) as T1. cbv beta in T1.
+    rewrite (sumf_last (fun j => Q1 m j *! f j 0 x) m) in T1 by lia.
+    rewrite (sumf_ext kO kadd (fun j => Q m j *! (f j 0 x +! f j 1 x)) (fun j => Q m j *! f j 0 x +! Q m j *! f j 1 x) 1 M)
+      by (intros; ring).
+    rewrite (sumf_add kO kI kadd kmul ksub kopp Rth).
+    set (B := sumf (fun j => Q m j *! f j 0 x) 1 M) in *.
+    set (B' := sumf (fun j => Q m j *! f j 1 x) 1 M) in *.
+    set (C := sumf (fun j => Q1 m j *! f j 0 x) 1 M) in *.
+    set (A := sumf (fun j => Q1 m j *! f j 0 x) 1 (m - 1)) in *.
+    transitivity ((u m x -! dt *! Q1 m m *! f m 0 x -! dt *! A) +! dt *! (A +! Q1 m m *! f m 0 x)); [ring|].
+    rewrite H1, <- T1. ring.
+  Qed.
+
   (* ================================================================ imex_1st_order_mass *)
   (* contract of the mass problem's solve_system: mass(w) - a * f_impl(w, t) = rhs *)
   Definition mass_solver_contract (massop : V -> V) : Prop :=
